@@ -35,7 +35,7 @@ def record(u, **kw):
                 e["args"] = [enc(x or "") for x in a[0]]
                 e["res"] = enc(r)
             elif name == "unsplit_netloc":
-                e["args"] = [enc(a[0] or ""), enc(a[1] or ""), enc(a[2] or ""), enc(str(a[3])) if a[3] else []]
+                e["args"] = [enc(a[0] or ""), enc(a[1] or ""), enc(a[2] or ""), enc(str(a[3])) if a[3] is not None and a[3] != "" else []]
                 e["res"] = enc(r or "")
             else:
                 e["args"] = [enc(x) for x in a if isinstance(x, str)]
